@@ -612,25 +612,31 @@ func (r *Runner) execSketch(cmd string, a []string) string {
 		}
 		return r.encChk(e, a[1] == "1")
 	case "dec":
-		// dec <h> <m|-> <storekind> [N] [x] <bytes>
-		if len(a) < 4 {
+		// dec <h> <m|-> <oracleMh|-> <storekind> [N] [x] <bytes>
+		if len(a) < 5 {
 			return "bad-op"
 		}
 		id, err := strconv.Atoi(a[0])
 		if err != nil {
 			return "bad-op"
 		}
-		mh := -1
 		var m mapping.IndexMapping
 		if a[1] != "-" {
-			mh, err = strconv.Atoi(a[1])
+			mh, err := strconv.Atoi(a[1])
 			me, ok := r.maps[mh]
 			if err != nil || !ok {
 				return "bad-handle"
 			}
 			m = me.m
 		}
-		kind, n, rest, ok := parseStoreKind(a[2:])
+		omh := -1
+		if a[2] != "-" {
+			omh, err = strconv.Atoi(a[2])
+			if err != nil {
+				return "bad-op"
+			}
+		}
+		kind, n, rest, ok := parseStoreKind(a[3:])
 		if !ok || len(rest) < 1 {
 			return "bad-op"
 		}
@@ -646,7 +652,7 @@ func (r *Runner) execSketch(cmd string, a []string) string {
 		if berr != nil {
 			return "bad-op"
 		}
-		e := &skEntry{mh: mh, storeKind: kind, n: n}
+		e := &skEntry{mh: omh, storeKind: kind, n: n}
 		var derr error
 		okp, msg := guard(func() {
 			if isX {
@@ -658,6 +664,13 @@ func (r *Runner) execSketch(cmd string, a []string) string {
 		r.sks[id] = e
 		if !okp {
 			return r.poisonSk(e, "decode", msg)
+		}
+		if !r.quiet {
+			var got *ddsketch.DDSketch
+			if derr == nil {
+				got = e.sk()
+			}
+			r.decodeOracle(bs, m, isX, kind, n, skSnapshot{empty: true}, got, derr)
 		}
 		if derr != nil {
 			e.poisoned = true
@@ -677,6 +690,7 @@ func (r *Runner) execSketch(cmd string, a []string) string {
 			return "bad-op"
 		}
 		var derr error
+		before := snapshot(e)
 		okp, msg := guard(func() {
 			if e.exact != nil {
 				derr = e.exact.DecodeAndMergeWith(bs)
@@ -688,6 +702,13 @@ func (r *Runner) execSketch(cmd string, a []string) string {
 			return r.poisonSk(e, "decode-merge", msg)
 		}
 		e.known = false
+		if !r.quiet {
+			var got *ddsketch.DDSketch
+			if derr == nil {
+				got = e.sk()
+			}
+			r.decodeOracle(bs, e.sk().IndexMapping, e.exact != nil, e.storeKind, e.n, before, got, derr)
+		}
 		if derr != nil {
 			e.poisoned = true
 			return "err:" + skErrName(derr)
